@@ -166,7 +166,7 @@ Theorem escaped_step arg cur pi st vaf :
   shadow_step arg cur pi true st vaf =
   match (if try_sub cur st && negb (is_set s_args_negate_subs cur && vaf) && utf8_valid arg then find_subcommand cur arg else None) with
   | Some next => SNext next 1 true ValueDone false
-  | None => match parse_positional cur pi true st with
+  | None => match parse_positional cur pi true st arg with
             | Some (st', pi') => SNext cur pi' true st' true
             | None => SPanic 673
             end
@@ -174,11 +174,12 @@ Theorem escaped_step arg cur pi st vaf :
 Proof. reflexivity. Qed.
 
 (** counting an escaped value never returns to [ValueDone] (from [ValueDone] or [Pos]) *)
-Theorem escaped_positional_state cur pi st st' pi' :
+Theorem escaped_positional_state cur pi st w st' pi' :
   (match st with Opt _ _ => False | _ => True end) ->
-  parse_positional cur pi true st = Some (st', pi') -> exists i n, st' = Pos i n.
+  parse_positional cur pi true st w = Some (st', pi') -> exists i n, st' = Pos i n.
 Proof.
   intros Hst H. unfold parse_positional in H.
+  destruct (negb _ && _). { inversion H; eauto. }
   destruct st as [|ppi n|o k]; [| |contradiction].
   - match type of H with Some (if ?b then _ else _) = _ => destruct b end; inversion H; eauto.
   - destruct (ppi =? pi).
